@@ -15,7 +15,7 @@ func TestReplay(t *testing.T) { vh.Replay(t) }
 
 var profile = life.Profile{
 	MaxOps: 16, WSend: 6, WPanic: 4, WGate: 2, WRelease: 2, WPoison: 2, WStop: 2, WRespawn: 1, WBurst: 1,
-	MaxChain: 4, MaxChildren: 0, Lifecycle: true, SpawnSends: true, MaxBudget: 3,
+	MaxChain: 4, MaxChildren: 0, Lifecycle: true, SpawnSends: true, MaxBudget: 3, Replies: true,
 }
 
 func TestMiddleware(t *testing.T) {
